@@ -54,7 +54,7 @@ def leak_root_cause(u, c, phase_targets):
             causes += G.audit_free_helper(u, t, cty)
         except G.Tie:
             pass
-    kinds = {k for k, _, _ in causes}
+    kinds = {k for k, _, _ in causes} - {"cascade"}
     if causes and kinds == {"member-helper-not-called"}:
         return "member-helper-not-called", causes
     return None, causes
@@ -114,7 +114,7 @@ def run(ctx):
         "excluded as in C10: %s; flags > 32 members; async; lists of borrows of exported resources" % sorted(excl),
     ]
     ctx.proof_leg(TARGETS, ["Props.C11"], THEOREMS)
-    nworlds = 8 if quick else 160
+    nworlds = 8 if quick else 100
     rng = ctx.rng
 
     def mk(r, i):
